@@ -346,8 +346,24 @@ def main_wrapper(fn):
         sys.exit(2)
     except SystemExit:
         raise
-    except Exception:
+    except Exception as e:
         traceback.print_exc()
+        # An exception that ORIGINATES in the library under verification while the harness drives it with inputs that the
+        # specification declares valid is a verdict about the library, not a failure of the machinery: the unchanged tree
+        # runs every check to completion, so this can only happen on a changed tree.
+        tb = traceback.extract_tb(e.__traceback__)
+        lib = os.path.realpath(os.path.join(REPO, "hvsrpy")) + os.sep
+        if tb and os.path.realpath(tb[-1].filename).startswith(lib):
+            pid = os.path.basename(sys.argv[0]).replace("check_", "").replace(".py", "")
+            os.makedirs(REPLAYS, exist_ok=True)
+            path = os.path.join(REPLAYS, f"{pid}-library-raised.json")
+            where = f"{os.path.relpath(tb[-1].filename, REPO)}:{tb[-1].lineno} in {tb[-1].name}"
+            with open(path, "w") as f:
+                json.dump(dict(property=pid, key=f"library-raised:{type(e).__name__}", description=f"{type(e).__name__}: {e} raised at {where} "
+                               "while the check was driving the library with valid inputs", traceback=traceback.format_exc()), f, indent=1)
+            print(f"VIOLATION property={pid} replay={path}")
+            print(f"  library-raised:{type(e).__name__}: {e} (at {where}) on inputs the specification declares valid; the check could not continue")
+            sys.exit(1)
         print("MACHINERY-FAILURE: unexpected exception in the harness")
         sys.exit(2)
     sys.exit(rc)
